@@ -4,7 +4,10 @@ schema of lists of configurations (generated with the s_configops generators, se
 public operations x masks.  The implementation builds the configuration, runs the history and renders it with
 `to_tree()` and `to_tree(sensitive_mask=mask)`; both trees are compared with Config.v (`run_totree`).  The direct
 oracle walks the case's schema description next to the real configuration's stored values and both trees, and checks
-the documents `dumps(format, sensitive_mask=mask)` of every built-in format.
+the documents `dumps(format, sensitive_mask=mask)` of every built-in format.  Two implementation-only variants of a case
+re-run the history on (a) the schema with configuration types in place of nested schemas and (b) the schema extended with
+sensitive / non-sensitive CONTAINER fields (lists of configurations, typed and untyped lists and dicts) at the root, in a
+sub-configuration and in list items: a sensitive container is replaced by the mask as a whole.
 """
 import copy
 
@@ -97,10 +100,18 @@ def boost(rng, c, p_sens):
                 o = (o[0], o[1], fix_value(rng, decl.get(o[1]), o[2]), o[3])
             elif o[0] == "load":
                 o = (o[0], fix_tree(rng, fs, o[1]), o[2])
+            elif o[0] == "loads":
+                o = (o[0], o[1], fix_tree(rng, fs, o[2]), o[3])
             elif o[0] == "append" and decl.get(o[1], {}).get("t") == "cfglist":
                 o = (o[0], o[1], fix_tree(rng, decl[o[1]]["fields"], o[2]))
             elif o[0] == "setidx" and decl.get(o[1], {}).get("t") == "cfglist":
                 o = (o[0], o[1], o[2], fix_tree(rng, decl[o[1]]["fields"], o[3]))
+        if o[0] == "loads":
+            # as s_configops.generate_for: a document whose root is not a map is outside every property here
+            for dmg in (o[3], "garbage", "truncate", "none"):
+                if _base.parse_direct(o[1], _base.make_document(o[1], o[2], dmg), o[2]) != ("err", "notamap"):
+                    o = ("loads", o[1], o[2], dmg)
+                    break
         ops.append((ps, o))
     c["ops"] = ops
     return c
@@ -203,7 +214,7 @@ def matrix_cases():
     for mask in MASKS:
         for t in loads:
             cases.append({"vt": [], "dyn": False, "vals": [], "fields": copy.deepcopy(fields), "kw": {},
-                          "ops": [((), ("load", copy.deepcopy(t), True))] if t else [], "mask": mask, "kind": "matrix", "ctype": True})
+                          "ops": [((), ("load", copy.deepcopy(t), True))] if t else [], "mask": mask, "kind": "matrix", "ctype": True, "_xcfix": True})
     # the same through constructor keywords / assignment / append, and a dynamic schema
     for mask in ("*", "[hidden]", None):
         cases.append({"vt": [], "dyn": True, "vals": [], "fields": copy.deepcopy(fields), "kw": {"pw": "ctor-secret-1234", "extra": "dyn-public"},
@@ -232,6 +243,14 @@ def generate(rng, tier):
         c["kind"] = "directed"
         c["ctype"] = rng.random() < 0.35
         cases.append(c)
+    # sensitive container fields: every kind x sensitive / not on the matrix cases (fixed places, seeded values), random on a
+    # third of the others
+    allk = [(k, sn) for k in XC_KINDS for sn in (True, False)]
+    for i, c in enumerate(cases):
+        if c.pop("_xcfix", False):
+            c["xc"] = xc_spec(rng, c["fields"], fixed=[allk[(i + j) % len(allk)] for j in range(0, 12, 3)] + [("cfgs", True)])
+        elif rng.random() < 0.35:
+            c["xc"] = xc_spec(rng, c["fields"])
     for c in cases:
         c["prop"] = "C10"
     return cases
@@ -280,12 +299,148 @@ def run_variant(c):
         return {"ctor": type(e).__name__}
     outs = []
     for ps, o in c["ops"]:
-        if ps:
-            continue                      # s_configops.navigate addresses Schema-built sub-configurations only
         outs.append(_base.apply_op(root, ps, o))
     mask = c["mask"]
     return {"root": root, "built": b, "outs": outs, "plain": _render(lambda: root.to_tree()),
             "masked": _render(lambda: root.to_tree(sensitive_mask=mask))}
+
+
+# ---------------------------------------------------------------------------------------------
+# sensitive CONTAINER fields (implementation only: Config.v's NCfgList carries no sensitive flag).  Extra fields are
+# added to the case's real schema -- at the root, in a sub-configuration, in the item schema of a list -- after the
+# declared ones: ListField(schema), ListField(IntField()), ListField(StringField()), DictField(StringField(), IntField()),
+# untyped ListField() / DictField(), each sensitive or not, holding None / an empty / a non-empty value.
+# A sensitive container is replaced by the mask AS A WHOLE (Config.to_tree tests field.sensitive before it looks at
+# the value's items); a non-sensitive one is rendered item by item with the mask in force.
+# ---------------------------------------------------------------------------------------------
+XC_KINDS = ["cfgs", "ints", "strs", "dict", "ulist", "udict"]
+XC_ITEM = [("host", _leaf(("str", None, None, False, False), False)), ("note", _leaf(("str", None, None, False, False), False)),
+           ("key", _leaf(("str", None, None, False, False), True))]
+
+
+def xc_value(rng, kind, tag):
+    """None (unset), empty or non-empty; strings are recognisable and unique to this field"""
+    r = rng.random()
+    if r < 0.12:
+        return None
+    empty = r < 0.3
+    if kind == "cfgs":
+        return [] if empty else [{"host": "xc-host-%s-%d.internal" % (tag, i), "note": "xc-note-%s-%d" % (tag, i),
+                                  "key": rng.choice(["", "xc-key-%s-%d" % (tag, i)])} for i in range(rng.choice([1, 2, 3]))]
+    if kind == "ints":
+        return [] if empty else [rng.choice([0, 7, -3, 123456]) for _ in range(rng.choice([1, 2, 4]))]
+    if kind == "strs":
+        return [] if empty else ["xc-str-%s-%d" % (tag, i) for i in range(rng.choice([1, 2]))] + rng.choice([[], [""]])
+    if kind == "dict":
+        return {} if empty else {"xc-dkey-%s-%d" % (tag, i): rng.choice([0, 5, 99]) for i in range(rng.choice([1, 2]))}
+    if kind == "ulist":
+        return [] if empty else rng.choice([[1, "xc-ulist-%s" % tag], ["xc-ulist-%s" % tag, None, True], [0]])
+    return {} if empty else rng.choice([{"xc-ukey-%s" % tag: "xc-uval-%s" % tag}, {"a": [1, "xc-uval-%s" % tag]}, {"z": 0}])
+
+
+def xc_spec(rng, fields, fixed=None):
+    """extra container fields for this case: [(place, name, kind, sensitive, value)]; place = () root, ("key", k), ("list", k)"""
+    places = [()]
+    for k, nd in fields:
+        if nd["t"] == "sub":
+            places.append(("key", k))
+        elif nd["t"] == "cfglist":
+            places.append(("list", k))
+    spec = []
+    n = 0
+    for kind, sens in (fixed if fixed is not None else [(rng.choice(XC_KINDS), rng.random() < 0.7) for _ in range(rng.randint(1, 4))]):
+        n += 1
+        place = rng.choice(places) if fixed is None else places[n % len(places)]
+        name = "xc%d_%s" % (n, kind)
+        spec.append((place, name, kind, sens, xc_value(rng, kind, "%d" % n)))
+    return spec
+
+
+def xc_node(kind, sens):
+    if kind == "cfgs" and not sens:
+        return {"t": "cfglist", "required": False, "vals": [], "fields": XC_ITEM}
+    return {"t": "xc", "kind": kind, "sensitive": sens, "fields": XC_ITEM if kind == "cfgs" else []}
+
+
+def xc_fields(fields, spec):
+    """the schema description with the extra fields appended where they were added"""
+    out = []
+    for k, nd in fields:
+        if nd["t"] == "sub":
+            nd = dict(nd, fields=list(nd["fields"]) + [(name, xc_node(kind, sens)) for pl, name, kind, sens, _ in spec if pl == ("key", k)])
+        elif nd["t"] == "cfglist":
+            nd = dict(nd, fields=list(nd["fields"]) + [(name, xc_node(kind, sens)) for pl, name, kind, sens, _ in spec if pl == ("list", k)])
+        out.append((k, nd))
+    return out + [(name, xc_node(kind, sens)) for pl, name, kind, sens, _ in spec if pl == ()]
+
+
+def schema_of(fld):
+    """the Schema behind a sub-configuration field / a list's item field (Schema, ConfigTypeField or config type)"""
+    from cincoconfig import Schema
+    from cincoconfig.core import ConfigTypeField
+    if isinstance(fld, Schema):
+        return fld
+    if isinstance(fld, ConfigTypeField):
+        return fld.config_type.__schema__
+    if isinstance(fld, type):
+        return fld.__schema__
+    return None
+
+
+def run_containers(c):
+    from cincoconfig import Schema, ListField, DictField, IntField, StringField
+    b = _base.Built(c)
+
+    def mk(kind, sens):
+        if kind == "cfgs":
+            item = Schema()
+            item._add_field("host", StringField())
+            item._add_field("note", StringField())
+            item._add_field("key", StringField(sensitive=True))
+            return ListField(item, sensitive=sens)
+        if kind == "ints":
+            return ListField(IntField(), sensitive=sens)
+        if kind == "strs":
+            return ListField(StringField(), sensitive=sens)
+        if kind == "dict":
+            return DictField(StringField(), IntField(), sensitive=sens)
+        if kind == "ulist":
+            return ListField(sensitive=sens)
+        return DictField(sensitive=sens)
+    try:
+        for place, name, kind, sens, _ in c["xc"]:
+            if place == ():
+                target = b.schema
+            else:
+                fld = b.schema._fields[place[1]]
+                target = schema_of(fld if place[0] == "key" else fld.field)
+            target._add_field(name, mk(kind, sens))
+        root = b.schema(**copy.deepcopy(c["kw"]))
+    except Exception as e:  # noqa
+        return {"ctor": type(e).__name__}
+    outs = [_base.apply_op(root, ps, o) for ps, o in c["ops"]]
+    sets = []
+    for place, name, kind, sens, value in c["xc"]:
+        if value is None:
+            continue
+        if place == ():
+            targets = [root]
+        elif place[0] == "key":
+            targets = [root._data.get(place[1])]
+        else:
+            targets = list(root._data.get(place[1]) or [])
+        for t in targets:
+            if _base.is_cfg(t):
+                try:
+                    setattr(t, name, copy.deepcopy(value))
+                    sets.append("ok")
+                except Exception as e:  # noqa
+                    sets.append(type(e).__name__)
+    mask = c["mask"]
+    return {"root": root, "built": b, "outs": outs, "sets": sets, "plain": _render(lambda: root.to_tree()),
+            "masked": _render(lambda: root.to_tree(sensitive_mask=mask)),
+            "json": _render(lambda: root.dumps(format="json", sensitive_mask=mask)),
+            "pickle": _render(lambda: root.dumps(format="pickle", sensitive_mask=mask))}
 
 
 def impl(c):
@@ -318,6 +473,8 @@ def impl(c):
     c["_docs"] = docs
     if c.get("ctype"):
         c["_variant"] = run_variant(c)
+    if c.get("xc"):
+        c["_containers"] = run_containers(c)
     return (plain, masked)
 
 
@@ -389,6 +546,8 @@ def check_cfg(fields, cfg, plain, masked, mask, path, bad, secrets, publics):
                 if not same(masked[k], plain[k]):
                     bad.append("%s (%s) is rendered as %r under mask %r but %r without" % (
                         p, "mask absent" if mask is None else "not sensitive", masked[k], mask, plain[k]))
+        elif nd["t"] == "xc":
+            check_container(nd, x, plain[k], masked[k], mask, p, bad, secrets, publics)
         elif nd["t"] == "sub":
             if not _base.is_cfg(x):
                 bad.append("%s does not hold a configuration" % p)
@@ -409,6 +568,60 @@ def check_cfg(fields, cfg, plain, masked, mask, path, bad, secrets, publics):
             else:
                 for i, it in enumerate(x):
                     check_cfg(nd["fields"], it, plain[k][i], masked[k][i], mask, "%s[%d]" % (p, i), bad, secrets, publics)
+
+
+def container_strings(x, out):
+    """every string held in a container value (items, keys, values; leaf values of item configurations)"""
+    if _base.is_cfg(x):
+        for v in x._data.values():
+            container_strings(v, out)
+    elif isinstance(x, dict):
+        for k, v in x.items():
+            container_strings(k, out)
+            container_strings(v, out)
+    elif isinstance(x, (list, tuple)):
+        for v in x:
+            container_strings(v, out)
+    elif isinstance(x, str):
+        out.append(x)
+
+
+def check_container(nd, x, plain, masked, mask, p, bad, secrets, publics):
+    """a list / dict field: x is the stored value (None, list, dict, ListProxy, DictProxy)"""
+    kind = nd["kind"]
+    # without a mask: the basic form of the value
+    if x is None:
+        want_plain = None
+    elif kind == "cfgs":
+        want_plain = None                                       # item configurations: checked structurally below
+        if not isinstance(plain, list) or len(plain) != len(x) or not all(isinstance(t, dict) for t in plain):
+            bad.append("without a mask list %s of %d configurations is rendered as %r" % (p, len(x), plain))
+        else:
+            for i, it in enumerate(x):
+                check_cfg(nd["fields"], it, plain[i], plain[i], None, "%s[%d]" % (p, i), bad, [], [])
+    elif kind in ("dict", "udict"):
+        want_plain = dict(x)
+    else:
+        want_plain = list(x)
+    if (x is None or kind != "cfgs") and not same(plain, want_plain):
+        bad.append("without a mask container %s is rendered as %r, holds %r" % (p, plain, x))
+    if nd["sensitive"] and mask is not None:
+        want = expected_mask(mask, x)
+        if not same(masked, want):
+            bad.append("sensitive container %s (%s, %d items) is rendered as %r under mask %r, expected %r (the whole value replaced)" % (
+                p, kind, len(x) if x is not None else -1, masked, mask, want))
+        strs = []
+        container_strings(x, strs)
+        for s in strs:
+            if len(s) >= 6:
+                secrets.append((p, s))
+    else:
+        strs = []
+        container_strings(x, strs)
+        publics.extend(strs)
+        if not same(masked, plain):                             # (a non-sensitive list of configurations is a cfglist node)
+            bad.append("container %s (%s) is rendered as %r under mask %r but %r without" % (
+                p, "mask absent" if mask is None else "not sensitive", masked, mask, plain))
 
 
 def flat_text(v, out):
@@ -459,6 +672,33 @@ def oracle(c, obs):
             bad += ["config-type variant: " + m for m in vbad]
             if mask is None and not same(v["plain"][1], v["masked"][1]):
                 bad.append("config-type variant: sensitive_mask=None changed the tree")
+    # sensitive container fields added to the real schema (implementation only)
+    v = c.get("_containers")
+    if v is not None and "root" in v:
+        if v["plain"][0] != "ok" or v["masked"][0] != "ok":
+            bad.append("container variant: to_tree raised %r / %r" % (v["plain"][1], v["masked"][1]))
+        else:
+            vbad, vsec, vpub = [], [], []
+            check_cfg(xc_fields(c["fields"], c["xc"]), v["root"], v["plain"][1], v["masked"][1], mask, "", vbad, vsec, vpub)
+            bad += ["container variant: " + m for m in vbad]
+            if mask is None and not same(v["plain"][1], v["masked"][1]):
+                bad.append("container variant: sensitive_mask=None changed the tree")
+            if mask is not None:
+                vtext = []
+                flat_text(vpub, vtext)
+                all_keys(c["fields"], vtext)
+                vtext.append(mask)
+                n = 0
+                for fmt in ("json", "pickle"):
+                    if v[fmt][0] != "ok":
+                        continue
+                    for p, s in vsec:
+                        if any(s in t for t in vtext):
+                            continue
+                        n += 1
+                        if s.encode("utf-8") in v[fmt][1]:
+                            bad.append("container variant: the %s document written with mask %r contains %r held by sensitive field %s" % (fmt, mask, s, p))
+                c["_xc_secrets_checked"] = n
     # documents
     pub_text = []
     flat_text(publics, pub_text)
@@ -548,6 +788,18 @@ def tags(c, obs):
             t.add("%s:%s" % (key[1:], fmt))
     if c.get("_secrets_checked"):
         t.add("secret-bytes-searched")
+    v = c.get("_containers")
+    if v is not None:
+        t.add("container-variant" if "root" in v else "container-variant-ctor-rejected")
+        if "root" in v:
+            for st in v["sets"]:
+                t.add("container-set:" + st)
+            for place, name, kind, sens, value in c["xc"]:
+                t.add("container:%s:%s:%s@%s" % (kind, "sensitive" if sens else "public",
+                                                 "unset" if value is None else "nonempty" if value else "empty",
+                                                 "root" if place == () else "nested" if place[0] == "key" else "list-item"))
+            if c.get("_xc_secrets_checked"):
+                t.add("container-secret-bytes-searched")
     v = c.get("_variant")
     if v is not None:
         t.add("config-type-variant" if "root" in v else "config-type-variant-ctor-rejected")
